@@ -1,7 +1,7 @@
 #!/bin/bash
 # runs every registered check of a tier, one after the other; prints one line per check
 tier=${1:-quick}
-cd /verif
+cd "$(dirname "$0")/.."
 for id in $(python3 -c "import json; print(' '.join(c['property_id'] for c in json.load(open('MANIFEST.json'))['checks']))"); do
   s=$(date +%s)
   out=$(python3 run/check.py $id --tier $tier 2>/tmp/verif_all_$id.err); rc=$?
